@@ -998,6 +998,7 @@ def full_case(draw, op, need_grad=True):
     c["scale"] = draw(st.sampled_from(list(op.scales)))
     c["wrap"] = draw(st.booleans())
     c["twice"] = draw(st.sampled_from([False, False, False, True]))     # differentiate the same graph a second time
+    c["refused_first"] = draw(st.integers(0, 5)) == 0
     c["extend"] = draw(st.integers(0, 3)) == 0     # grow the graph above the root, seed with the root's live .grad
     if op.multi:
         c["oi"] = draw(st.integers(0, 7))
